@@ -41,6 +41,9 @@ SPEC_PI2 = 2 * math.pi
 # ---------------------------------------------------------------- library models
 def _r(x):
     if is_z(x):
+        if is_obj(x):
+            from pyvc.values import real_of
+            return real_of(x)           # an opaque library value used as a number
         return z3.ToReal(x) if x.sort() == z3.IntSort() else x
     return z3.RealVal(repr(float(x)))
 
@@ -87,6 +90,7 @@ def t_formulas(T):
         base = f"{TENSOR}/{fname}.py::{cname}"
         pol = numeric_policy(libs)
         pol["inline"] = [f"{TENSOR}/{fname}.py::"]
+        pol["numbers_are_arrays"] = True
         eng = T.engine(pol)
         eng.axiom_schemas = list(getattr(eng, "axiom_schemas", [])) + [log_product_schema]
         for m in ("poisson_logpdf", "poisson", "normal_logpdf", "normal", "normal_cdf", "poisson_dist", "normal_dist"):
@@ -476,16 +480,20 @@ def replay(r):
                 continue
             tl, _ = pyhf.get_backend()
             A = lambda v: tl.astensor(np.asarray(v, dtype=float))
-            for n, lam in ((3.0, 2.5), (0.0, 0.0), (7.25, 11.5), (0.0, 3.0)):
+            def differs(got, want, rel=1e-9):
+                if np.isinf(want) or np.isnan(want):
+                    return not (got == want)
+                return not (abs(got - want) <= rel * max(1.0, abs(want)))
+            for n, lam in ((3.0, 2.5), (0.0, 0.0), (7.25, 11.5), (0.0, 3.0), (200.0, 180.0), (1000.0, 1000.5), (3.0, 0.0)):
                 want = float(xlogy(n, lam) - lam - gammaln(n + 1.0))
                 got = float(np.asarray(tl.tolist(tl.poisson_logpdf(A([n]), A([lam]))))[0])
-                if abs(got - want) > 1e-9 * max(1.0, abs(want)):
+                if differs(got, want):
                     bad[f"{backend}:poisson_logpdf({n},{lam})"] = {"got": got, "exact": want}
                 gp = float(np.asarray(tl.tolist(tl.poisson(A([n]), A([lam]))))[0])
-                if abs(gp - np.exp(want)) > 1e-9:
+                if differs(gp, float(np.exp(want)), 1e-9):
                     bad[f"{backend}:poisson({n},{lam})"] = {"got": gp, "exact": float(np.exp(want))}
                 gd = float(np.asarray(tl.tolist(tl.poisson_dist(A([lam])).log_prob(A([n]))))[0])
-                if abs(gd - want) > 1e-9 * max(1.0, abs(want)):
+                if differs(gd, want):
                     bad[f"{backend}:poisson_dist({lam}).log_prob({n})"] = {"got": gd, "exact": want}
             for x, mu, s in ((0.3, 1.2, 0.7), (-2.0, 0.5, 3.0), (5.0, 5.0, 0.01)):
                 want = float(norm.logpdf(x, mu, s))
